@@ -10,11 +10,13 @@ import (
 // ---- C07, the generation race: "rpcgen sched <step,step,...>" ----
 //
 // One import id (1) on a real Conn, driven as Model.ImportGen:
-//   r      a descriptor for the import arrives (a Bootstrap answered with senderHosted 1): a new handle
-//   d<h>   handle h is released now
-//   s<h>   a call on handle h is started and parks in PlaceArgs, then handle h is released asynchronously: the client's
-//          last Release (if this was its last handle) waits for the call, its Shutdown is delayed  (one at a time)
-//   g      the parked call proceeds (and is answered): the delayed Shutdown runs
+//
+//	r      a descriptor for the import arrives (a Bootstrap answered with senderHosted 1): a new handle
+//	d<h>   handle h is released now
+//	s<h>   a call on handle h is started and parks in PlaceArgs, then handle h is released asynchronously: the client's
+//	       last Release (if this was its last handle) waits for the call, its Shutdown is delayed  (one at a time)
+//	g      the parked call proceeds (and is answered): the delayed Shutdown runs
+//
 // Output per step: the import table entry (i1=<wire references>) after the step and the Release messages sent in it.
 func execImportGen(sched string) string {
 	var ops []string
